@@ -6,6 +6,7 @@ import (
 	"sort"
 	"strings"
 
+	"grog/internal/config"
 	"grog/internal/dag"
 	"grog/internal/label"
 	"grog/internal/model"
@@ -15,7 +16,12 @@ import (
 type outputRecord struct {
 	target *model.Target
 	output model.Output
-	path   string
+	// path is the cleaned path relative to the workspace root as the user spelled it (for messages)
+	path string
+	// resolved is the location of the output resolved from the workspace root. Overlaps are decided on
+	// it, so that spellings which leave the workspace root and come back into it by name
+	// ("../<root>/x" and "x") are recognised as the same place.
+	resolved string
 }
 
 // detectOutputConflicts checks for conflicting output declarations between targets.
@@ -44,15 +50,17 @@ func detectOutputConflicts(graph *dag.DirectedTargetGraph) error {
 				})
 			case string(handlers.DirHandler):
 				dirOutputs = append(dirOutputs, outputRecord{
-					target: target,
-					output: output,
-					path:   cleanOutputPath(target, output.Identifier),
+					target:   target,
+					output:   output,
+					path:     cleanOutputPath(target, output.Identifier),
+					resolved: resolvedOutputPath(target, output.Identifier),
 				})
 			default:
 				fileOutputs = append(fileOutputs, outputRecord{
-					target: target,
-					output: output,
-					path:   cleanOutputPath(target, output.Identifier),
+					target:   target,
+					output:   output,
+					path:     cleanOutputPath(target, output.Identifier),
+					resolved: resolvedOutputPath(target, output.Identifier),
 				})
 			}
 		}
@@ -78,16 +86,16 @@ func detectOutputConflicts(graph *dag.DirectedTargetGraph) error {
 
 	fileMap := make(map[string][]outputRecord)
 	for _, record := range fileOutputs {
-		fileMap[record.path] = append(fileMap[record.path], record)
+		fileMap[record.resolved] = append(fileMap[record.resolved], record)
 	}
 
-	for path, records := range fileMap {
+	for _, records := range fileMap {
 		for i := 0; i < len(records); i++ {
 			for j := i + 1; j < len(records); j++ {
 				if targetsAreOrdered(graph, records[i].target, records[j].target, ancestorCache) {
 					continue
 				}
-				addConflict(fmt.Sprintf("%s and %s both write file output %q", records[i].target.Label, records[j].target.Label, path))
+				addConflict(fmt.Sprintf("%s and %s both write file output %q", records[i].target.Label, records[j].target.Label, records[i].path))
 			}
 		}
 	}
@@ -97,7 +105,7 @@ func detectOutputConflicts(graph *dag.DirectedTargetGraph) error {
 			if targetsAreOrdered(graph, dirOutputs[i].target, dirOutputs[j].target, ancestorCache) {
 				continue
 			}
-			if pathsOverlap(dirOutputs[i].path, dirOutputs[j].path) {
+			if pathsOverlap(dirOutputs[i].resolved, dirOutputs[j].resolved) {
 				addConflict(fmt.Sprintf("%s and %s both write overlapping directories (%q and %q)", dirOutputs[i].target.Label, dirOutputs[j].target.Label, dirOutputs[i].path, dirOutputs[j].path))
 			}
 		}
@@ -108,7 +116,7 @@ func detectOutputConflicts(graph *dag.DirectedTargetGraph) error {
 			if targetsAreOrdered(graph, dirRecord.target, fileRecord.target, ancestorCache) {
 				continue
 			}
-			if pathWithin(fileRecord.path, dirRecord.path) {
+			if pathWithin(fileRecord.resolved, dirRecord.resolved) {
 				addConflict(fmt.Sprintf("%s writes directory %q which overlaps file output %q from %s", dirRecord.target.Label, dirRecord.path, fileRecord.path, fileRecord.target.Label))
 			}
 		}
@@ -127,6 +135,11 @@ func cleanOutputPath(target *model.Target, output string) string {
 	return filepath.Clean(filepath.Join(target.Label.Package, output))
 }
 
+// resolvedOutputPath resolves an output from the workspace root and the target's package.
+func resolvedOutputPath(target *model.Target, output string) string {
+	return filepath.Join(config.Global.WorkspaceRoot, cleanOutputPath(target, output))
+}
+
 func pathWithin(path, dir string) bool {
 	if path == dir {
 		return true
@@ -139,6 +152,10 @@ func pathWithin(path, dir string) bool {
 	}
 
 	dirWithSeparator := dir + string(filepath.Separator)
+	if dir == string(filepath.Separator) {
+		// the file system root already ends in a separator
+		dirWithSeparator = dir
+	}
 	return strings.HasPrefix(path, dirWithSeparator)
 }
 
